@@ -93,18 +93,25 @@ def run(ctx):
                                               seed=ctx.seed * 100 + 50 + i, timeout=1500))
     if ctx.replay:      # re-execute exactly the recorded behaviour; only the cheap model stages are repeated
         jobs = jobs[:3]
+    import os
+    diag = bool(os.environ.get("VERIF_COVER") or os.environ.get("VERIF_NO_MC"))   # statement-coverage diagnostic of the replay stage: no exhaustive stages
+    if diag:
+        jobs = jobs[3:]
     with ThreadPoolExecutor(max_workers=len(jobs)) as ex:
         futs = [ex.submit(j) for j in jobs]
         res = [f.result() for f in futs]
+    if diag:
+        res = [None, None, None] + res
     r, rc, r1, groups = res[0], res[1], res[2], res[3:]
-    ctx.check_coverage(r, ["SetStake", "SetDelegation", "SetBond", "Transfer", "Register", "Unregister", "Claim",
+    if not diag:
+      ctx.check_coverage(r, ["SetStake", "SetDelegation", "SetBond", "Transfer", "Register", "Unregister", "Claim",
                            "Disqualify", "EndBlock"])
-    ctx.check_coverage(r1, ["SetStake", "SetDelegation", "SetBond", "Register", "Unregister", "Disqualify", "EndBlock"],
-                       allow_zero=("Transfer",))
-    ctx.exhaustive = True
-    ctx.notes.append("Impl=\"code\" (timer jobs of unstake.go applied literally): TLC reports %s"
-                     % (rc.violation or "no violation"))
-    ctx.log("Impl=code model: %s" % (rc.violation or "no violation"))
+      ctx.check_coverage(r1, ["SetStake", "SetDelegation", "SetBond", "Register", "Unregister", "Disqualify", "EndBlock"],
+                         allow_zero=("Transfer",))
+      ctx.exhaustive = True
+      ctx.notes.append("Impl=\"code\" (timer jobs of unstake.go applied literally): TLC reports %s"
+                       % (rc.violation or "no violation"))
+      ctx.log("Impl=code model: %s" % (rc.violation or "no violation"))
     cases, seen = [], set()
     for name, g, bs in groups:
         for b in bs:
